@@ -11,7 +11,7 @@ from ..gen import sqlite_factory as F
 from . import dbcommon as C
 
 ID = "C14"
-LEAN_MODULES = ["SqliteDissect.Properties.C14", "SqliteDissect.Properties.C01Cell", "SqliteDissect.Properties.C15", "SqliteDissect.Properties.C16"]
+LEAN_MODULES = ["SqliteDissect.Properties.C01Tree", "SqliteDissect.Properties.C14", "SqliteDissect.Properties.C01Cell", "SqliteDissect.Properties.C15", "SqliteDissect.Properties.C16"]
 RULE = ("factory databases with ordinary / unique / partial / multi-column / automatic indexes and WITHOUT ROWID "
         "tables over every page size and encoding, index payloads around the index overflow threshold; all cells "
         "(leaf and interior) of each index b-tree compared with the Lean model (db.dump) and, as multisets of "
